@@ -471,12 +471,16 @@ static void group_case(FILE *out, vf::Rng &rng, int nobj, int ngroups, bool exha
             if (mbr == dummy_at) o["k5"] = (SizeT64)99;
             if (mbr == pos) {
                 V &g = o[key_text(G).c_str()];
+                // group names that are prefixes of one another (and the empty name), in both orders of first appearance; names that
+                // coincide across kinds ("12" / 12, "true" / true, "null" / null)
+                static const char    *GS[6] = {"1", "12", "", "t", "true", "nul"};
+                static const SizeT64  GU[6] = {1, 12, 10, 120, 2, 0};
                 switch (kind) {
-                    case 0: g = STRS[gv * 2]; break;            // "a" "12" "2.5"
-                    case 1: g = (SizeT64)(gv + 10); break;
+                    case 0: g = GS[gv % 6]; break;
+                    case 1: g = GU[gv % 6]; break;
                     case 2: g = (gv % 2 == 0); break;
                     case 3: g = nullptr; break;
-                    default: g = (SizeT64I)(-gv - 1); break;
+                    default: g = -(SizeT64I)GU[gv % 6] - (gv % 6 == 5 ? 3 : 0); break;
                 }
             } else {
                 long k = (slot == 0) ? 2 : 4;
@@ -606,7 +610,7 @@ int main(int argc, char **argv) {
             for (int i = 0; i < nobj; ++i) total *= per;
             for (long code = 0; code < total; ++code) { vf::begin_case(n++); group_case(out, rng, nobj, 3, true, code); }
         }
-        for (long i = 0; i < nr; ++i) { vf::begin_case(n++); group_case(out, rng, 1 + (int)rng.below(5), 1 + (int)rng.below(3), false, 0); }
+        for (long i = 0; i < nr; ++i) { vf::begin_case(n++); group_case(out, rng, 1 + (int)rng.below(5), 1 + (int)rng.below(6), false, 0); }
         fclose(out);
         vf::g_trace = nullptr;
         printf("EVENTS %ld\n", n);
